@@ -6,8 +6,8 @@
 //   - forced (one shared schedule controller, all scenarios in parallel):
 //       witnesses    the two refutation schedules of Conc/Lifecycle.v (known findings);
 //       flush window a Save / Delete sequence is acknowledged while a flush (write tick or the
-//                    write-through of an immediate-write Save) is parked after collecting,
-//                    after dequeuing or after writing its batch; the hook events and the queue
+//                    write-through of an immediate-write Save) is parked before collecting,
+//                    after dequeuing (entry of chronicler.Write) or after writing its batch; the hook events and the queue
 //                    length after every step are replayed by Conc/Buffer.v (trace acceptance)
 //                    and the model predicts the reloaded content;
 //       teardown     a Set arrives while Destroy / auto-destroy / idle Close of the previous
@@ -286,7 +286,8 @@ func (o opSpec) String() string {
 	return fmt.Sprintf("set k%d", o.K)
 }
 
-var flushSites = map[string]int{"swamp.flush.collected": 1, "swamp.flush.dequeued": 2, "swamp.flush.wrote": 3, "swamp.flush.done": 4}
+// park sites inside a flush and the observation kind they stand for (7 = before the collect: no model step)
+var flushSites = map[string]int{"swamp.flush.begin": 7, "chronicler.write.begin": 5, "swamp.flush.wrote": 3}
 
 func (e *env) flushWindow(name string, wi int, park string, ops, post []opSpec) caseRec {
 	c := caseRec{kind: "flush_window", name: name, wi: wi, nontriv: true}
@@ -343,10 +344,12 @@ func (e *env) flushWindow(name string, wi int, park string, ops, post []opSpec) 
 			_, site, args := e.ctl.State(tid)
 			k := flushSites[site]
 			a := 0
-			if k == 1 && len(args) > 1 {
-				a = int(args[1])
+			if k == 5 && len(args) > 0 {
+				a = int(args[0])
 			}
-			ob(mt, k, a)
+			if k != 7 {
+				ob(mt, k, a)
+			}
 			c.script = append(c.script, fmt.Sprintf("  t%d %s q=%d", mt, site, qlen()))
 			if site == until {
 				return true
@@ -388,6 +391,7 @@ func (e *env) flushWindow(name string, wi int, park string, ops, post []opSpec) 
 				if !follow(tid, mt, "", false) {
 					c.hung = "request did not finish"
 				}
+				ob(mt, 4, 0)
 			} else if state != lib.Finished {
 				c.hung = "request did not settle"
 			} else if !o.Del && th == 1 {
@@ -429,6 +433,7 @@ func (e *env) flushWindow(name string, wi int, park string, ops, post []opSpec) 
 		if !follow(ftid, fmt0, "", true) {
 			c.hung = "first save did not finish"
 		}
+		ob(fmt0, 4, 0)
 		c.script = append(c.script, "set k0 (first) -> "+st)
 		if okSet(st) {
 			// it was saved before the operations inside its window although acknowledged after them
@@ -445,7 +450,7 @@ func (e *env) flushWindow(name string, wi int, park string, ops, post []opSpec) 
 		mtid++
 		ftid := e.tid()
 		c.bprogs = append(c.bprogs, "(Pb 3 0 0 0)")
-		e.ctl.Adopt("swamp.flush.collected", func(a []int64) bool { return len(a) > 0 && a[0] == id }, ftid)
+		e.ctl.Adopt("swamp.flush.begin", func(a []int64) bool { return len(a) > 0 && a[0] == id }, ftid)
 		if ok, _ := e.waitParked(ftid, 2500*time.Millisecond); !ok {
 			c.hung = "write tick did not arrive"
 			return c
@@ -457,9 +462,12 @@ func (e *env) flushWindow(name string, wi int, park string, ops, post []opSpec) 
 		for _, o := range ops {
 			request(o, true)
 		}
-		if !follow(ftid, fmt0, "swamp.flush.done", true) {
+		if park != "swamp.flush.wrote" && !follow(ftid, fmt0, "swamp.flush.wrote", true) {
 			c.hung = "write tick did not finish"
 		}
+		e.ctl.StepThread(ftid, 5*time.Millisecond)
+		time.Sleep(30 * time.Millisecond) // Sync
+		ob(fmt0, 4, 0)
 		// from here on the ticker goroutine runs freely (it stays a logical thread: release it whenever it parks)
 		go func() {
 			for i := 0; i < 1500; i++ {
@@ -748,8 +756,8 @@ func main() {
 
 	// ---- phase 1: forced scenarios, all in parallel under one controller
 	e.ctl = lib.New()
-	for _, s := range []string{"swamp.autodestroy", "swamp.idle.read", "gateway.set.summoned", "swamp.flush.collected",
-		"swamp.flush.dequeued", "swamp.flush.wrote", "swamp.flush.done", "swamp.destroy.cancelled", "swamp.callback"} {
+	for _, s := range []string{"swamp.autodestroy", "swamp.idle.read", "gateway.set.summoned", "swamp.flush.begin",
+		"chronicler.write.begin", "swamp.flush.wrote", "swamp.destroy.cancelled", "swamp.callback"} {
 		e.ctl.Park[s] = true
 	}
 	e.ctl.Keep = func(site string) bool { return !strings.HasPrefix(site, "summon.") }
@@ -772,7 +780,7 @@ func main() {
 	posts := [][]opSpec{nil, {{false, 2}}, {{false, 0}}}
 	n := 0
 	for wi := 0; wi <= 1; wi++ {
-		for _, park := range []string{"swamp.flush.collected", "swamp.flush.dequeued", "swamp.flush.wrote"} {
+		for _, park := range []string{"swamp.flush.begin", "chronicler.write.begin", "swamp.flush.wrote"} {
 			for oi, ops := range opsets {
 				_ = oi
 				wi, park, ops, post := wi, park, ops, posts[(n)%len(posts)]
